@@ -726,8 +726,12 @@ def run_instance(inst):
         x.setdefault('greedy', r)
     b['cost_s'] = 0.0
   else:
-    inst['exh'] = run_search(inst, 'exh')
-    inst['greedy'] = run_search(inst, 'greedy')
+    # the unit of the response is the user's business: some panels are recorded in units 2^23 times smaller (e.g.
+    # micro-currency) or 2^17 times larger; the budget range is in the same unit.  Powers of two, so exact.
+    unit = float(inst.get('unit', 1.0))
+    variant = {'scale': unit} if unit != 1.0 else None
+    inst['exh'] = run_search(inst, 'exh', variant)
+    inst['greedy'] = run_search(inst, 'greedy', variant)
   inst['cost_s'] = time.time() - t0
   return inst
 
@@ -872,6 +876,7 @@ def make_instances(seed, owner, count, nmax_geos=6):
       inst['want_budget'] = False
     inst['perturb_after'] = rng.random() < 0.5
     inst['decoy'] = rng.random() < 0.25
+    inst['unit'] = {5: 2.0 ** 23, 8: 2.0 ** -17}.get((i + 1) % 11, 1.0)
     insts.append(inst)
     if owner in ('C01', 'C03', 'C04') and inst['n'] >= 3 and inst['n'] <= 5 and rng.random() < 0.3:
       inst['shared_mode'] = rng.choice(['interleaved', 'sequential', 'shared_elig'] if not inst['default_elig'] else
@@ -900,7 +905,7 @@ def public(inst):
           'gtol': inst['gtol'], 'vtol': inst['vtol'], 'share': inst['share'], 'nmax': inst['nmax'],
           'budget': inst['budget'], 'want_budget': False, 'budget_mode': inst['budget_mode'],
           'ids_kind': inst['ids_kind'], 'extra_elig_row': inst['extra_elig_row'], 'shuffle_seed': inst['shuffle_seed'],
-          'float_ints': bool(inst.get('float_ints')),
+          'float_ints': bool(inst.get('float_ints')), 'unit': float(inst.get('unit', 1.0)),
           'perturb_after': bool(inst.get('perturb_after')), 'decoy': bool(inst.get('decoy')), 'shared_mode': inst.get('shared_mode'),
           'is_partner': bool(inst.get('is_partner')),
           'partner': public(inst['partner']) if inst.get('partner') is not None else None}
